@@ -159,13 +159,16 @@ func (e *Exec) loopCut(st *State, d loopDesc) []Outcome {
 	}
 	// 1. invariants hold on entry
 	env := e.loopEnv(st, d.node, d.inner)
+	env.pre = st
 	for _, inv := range invs {
 		env.what = fmt.Sprintf("%s loop %s invariant @%s", e.funcName(), key, inv.Label)
 		e.oblige(st, "inv-init", "loop"+key+":"+inv.Label, env.evalBool(inv.Expr), d.node, inv.Tags)
 	}
 	// 2. havoc
+	preState := st.clone()
 	e.havocLoop(st, d, spec)
 	env = e.loopEnv(st, d.node, d.inner)
+	env.pre = preState
 	for _, inv := range invs {
 		env.what = fmt.Sprintf("%s loop %s invariant @%s", e.funcName(), key, inv.Label)
 		st.assume(env.evalBool(inv.Expr))
@@ -206,6 +209,7 @@ func (e *Exec) loopCut(st *State, d loopDesc) []Outcome {
 			for _, s := range ends {
 				e.cover(s, "loop"+key, d.node)
 				env := e.loopEnv(s, d.node, d.inner)
+				env.pre = preState
 				for _, inv := range invs {
 					env.what = fmt.Sprintf("%s loop %s invariant @%s", e.funcName(), key, inv.Label)
 					e.oblige(s, "inv-keep", "loop"+key+":"+inv.Label, env.evalBool(inv.Expr), d.node, inv.Tags)
